@@ -2,9 +2,671 @@
 C01, property theorems about the TRANSLATED cipher-suite selection / resumption decision
 (`Src.<stack>.sel`; see DESIGN.md 12.4).  Same namespace as Props/C01.lean; listed in checks/C01.json under
 extra_props_files.
+
+`Gotlcp.Src.{tlcp,dtlcp}.sel.*` are regenerated from the Go source on every run: `Config.cipherSuites`,
+`mutualCipherSuite`, `selectCipherSuite`, `serverHandshakeState.cipherSuiteOk`,
+`serverHandshakeState.pickCipherSuite`, `clientHandshakeState.pickCipherSuite` and the tables
+`cipherSuitesPreferenceOrder`, `disabledCipherSuites`, `defaultCipherSuites`.  The statements below are about THOSE
+definitions: for every suite table `tbl` (the package-level map `cipherSuites` is a parameter), every answer `nn` to
+`CipherSuites != nil`, every handshake state whose pointers `hs.c`, `hs.c.config`, `hs.clientHello` (server) /
+`hs.c`, `hs.hello`, `hs.serverHello` (client) are non-nil — outside these hypotheses the Go code panics, and the
+translation returns the nil-dereference error (`C01_src_sel_nil_panics_*`) —, every configured list, every offer.
+
+THE PROPERTY (`C01_src_sel_pick_first_*`): the suite the server picks is the FIRST entry of the documented priority
+order (ECC-GCM, ECC-CBC, ECDHE-GCM, ECDHE-CBC: `C01_src_sel_tables`) that is configured on the server, offered by
+the client, present in the table, and admitted by `cipherSuiteOk` (the server has keys for it); the pick fails —
+handshake_failure, a non-nil error — exactly when no entry qualifies (`C01_src_sel_pick_fails_iff_*`); it does not
+depend on the ORDER of the server's configured list nor on the order of the client's offer
+(`C01_src_sel_order_independent_*`); the client accepts exactly a suite it offered and the table knows
+(`C01_src_sel_client_accepts_iff_*`), and therefore accepts whatever the server picked from its offer
+(`C01_src_sel_agreement_*`).  `C01_src_sel_is_model_*`: the translated functions ARE the model functions
+(`serverPick`, `selectCipherSuite`, `cipherSuiteOk`, `configSuites`, `mutualCipherSuite`, and the guards of
+`serverResumes`) of the model instance `factsP st` that the theorems of Props/C01.lean are about — which is where
+`factsP`'s `pref`, `disabled`, `serverPrefFirst`, `resumeSuiteGuards` and the policy-guard half of
+`resumeHonoursPolicy` come from (literals of `Model/Negotiate.lean`, not text-matching facts).
 -/
-import Gotlcp.Generated.Src
+import Gotlcp.Tie.Select
+import Gotlcp.Tie.ResumeDecision
+import Gotlcp.Model.NegotiateFacts
+
+set_option linter.unusedSimpArgs false
+set_option linter.unusedVariables false
 
 namespace Gotlcp.Props.C01
+open Gotlcp.Model.Negotiate
+open Gotlcp.Tie.Select
+
+/-- Every function the translator was asked for was translated, and the model instance of Props/C01.lean takes
+its preference order, its (empty) list of disabled suites, "the server's preference list is the outer loop", the
+two flag constants, and the resumption guards from the values the ties prove about the translated text. -/
+theorem C01_src_sel_translated :
+    Src.untranslated = [] ∧ ∀ st, TreeParams (factsP st) ∧ Gotlcp.Tie.ResumeDecision.TreeResume (factsP st) :=
+  ⟨by decide, fun st => by
+    cases st <;> exact ⟨⟨rfl, rfl, by decide, by decide, rfl⟩, ⟨by decide, by decide, by decide, rfl⟩⟩⟩
+
+/-- The preference order literal of the source, in BOTH stacks, is the documented priority order
+ECC-GCM, ECC-CBC, ECDHE-GCM, ECDHE-CBC = [0xe053, 0xe013, 0xe051, 0xe011]; no suite is disabled; the default
+list (`Config.CipherSuites == nil`) is the whole order. -/
+theorem C01_src_sel_tables :
+    Src.tlcp.sel.cipherSuitesPreferenceOrder = [0xe053#16, 0xe013#16, 0xe051#16, 0xe011#16] ∧
+    Src.dtlcp.sel.cipherSuitesPreferenceOrder = [0xe053#16, 0xe013#16, 0xe051#16, 0xe011#16] ∧
+    Src.tlcp.sel.cipherSuitesPreferenceOrder.map (·.toNat) =
+      [Facts.tlcp.ECC_SM4_GCM_SM3, Facts.tlcp.ECC_SM4_CBC_SM3, Facts.tlcp.ECDHE_SM4_GCM_SM3, Facts.tlcp.ECDHE_SM4_CBC_SM3] ∧
+    Src.dtlcp.sel.cipherSuitesPreferenceOrder.map (·.toNat) =
+      [Facts.dtlcp.ECC_SM4_GCM_SM3, Facts.dtlcp.ECC_SM4_CBC_SM3, Facts.dtlcp.ECDHE_SM4_GCM_SM3, Facts.dtlcp.ECDHE_SM4_CBC_SM3] ∧
+    Src.tlcp.sel.disabledCipherSuites = [] ∧ Src.dtlcp.sel.disabledCipherSuites = [] ∧
+    Src.tlcp.sel.defaultCipherSuites = Src.tlcp.sel.cipherSuitesPreferenceOrder ∧
+    Src.dtlcp.sel.defaultCipherSuites = Src.dtlcp.sel.cipherSuitesPreferenceOrder ∧
+    prefOrder = [0xe053#16, 0xe013#16, 0xe051#16, 0xe011#16] ∧
+    ∀ st, (factsP st).pref = prefOrder.map (·.toNat) ∧ (factsP st).disabled = [] := by
+  refine ⟨by decide, by decide, by decide, by decide, by decide, by decide, by decide, by decide, rfl, fun st => ?_⟩
+  cases st <;> exact ⟨by decide, rfl⟩
+
+/-! ### TLCP -/
+
+section tlcp
+open Gotlcp.Src.tlcp.sel Gotlcp.Tie.Select.tlcp
+
+/-- the model's table `p.known` as a table parameter: the entry of an id carries that id and the model's flags -/
+def tblOf_tlcp (p : Params) : BitVec 16 → Option cipherSuite :=
+  fun id => (flagsOf p id.toNat).map fun f => { id := id, flags := (f : Int) }
+
+/-- … it is a table the model's table describes (so `C01_src_sel_is_model_tlcp` is not vacuous), and its entries
+carry their own id -/
+theorem C01_src_sel_table_exists_tlcp (p : Params) :
+    TblAbs cipherSuite.flags p (tblOf_tlcp p) ∧ ∀ id s, tblOf_tlcp p id = some s → s.id = id := by
+  constructor
+  · intro id
+    unfold tblOf_tlcp
+    cases flagsOf p id.toNat <;> rfl
+  · intro id s h
+    unfold tblOf_tlcp at h
+    cases hf : flagsOf p id.toNat with
+    | none => rw [hf] at h; cases h
+    | some f => rw [hf] at h; cases h; rfl
+
+/-- `selectCipherSuite(ids, supported, ok)` never panics and returns the table entry of the FIRST id in `ids` whose
+table entry exists, satisfies `ok`, and which occurs in `supported` (`List.find?` form); `mutualCipherSuite(have,
+want)` is the table entry of `want` when `have` contains it, else nil; `Config.cipherSuites()` is the configured
+list when non-nil, else the default list. -/
+theorem C01_src_sel_select_tlcp (tbl : BitVec 16 → Option cipherSuite) (ids supported have_ : List (BitVec 16))
+    (want : BitVec 16) (ok : cipherSuite → Bool) (nn : List (BitVec 16) → Bool) (cfg : Config) :
+    selectCipherSuite tbl ids supported ok =
+      .ok ((ids.find? fun id => match tbl id with
+                                 | none => false
+                                 | some s => ok s && supported.contains id).bind tbl) ∧
+    mutualCipherSuite tbl have_ want = (if have_.contains want = true then tbl want else none) ∧
+    Config.cipherSuites nn cfg = (if nn cfg.CipherSuites = true then cfg.CipherSuites else defaultCipherSuites) := by
+  refine ⟨?_, mutual_eq tbl have_ want, ?_⟩
+  · rw [select_eq]
+    unfold selectSpec selectId
+    congr 3
+    funext id
+    unfold admits
+    cases tbl id <;> rfl
+  · rw [cfgSuites_eq, tables_eq.2.2.1]; rfl
+
+/-- `cipherSuiteOk` reads the five key flags and bits 1 (`suiteECSign`) and 0 (`suiteECDHE`) of the suite's flags:
+with bit 1 it demands an SM2 signing key AND an SM2 decryption key — dropping either check would admit a suite the
+server has no keys for —; without bit 1 but with bit 0, ECDHE support and an RSA signing key; with neither, an RSA
+decryption key.  All four suites of the preference order carry bit 1. -/
+theorem C01_src_sel_cipherSuiteOk_tlcp (hs : serverHandshakeState) (c : cipherSuite) :
+    serverHandshakeState.cipherSuiteOk hs c =
+      (if intBit c.flags 1 = true then hs.ecSignOk && hs.ecDecryptOk
+       else if intBit c.flags 0 = true then hs.ecdheOk && hs.rsaSignOk
+       else hs.rsaDecryptOk) ∧
+    (∀ f : Nat, c.flags = (f : Int) → f = 2 ∨ f = 3 →
+      (serverHandshakeState.cipherSuiteOk hs c = true ↔ hs.ecSignOk = true ∧ hs.ecDecryptOk = true)) := by
+  refine ⟨cipherSuiteOk_eq hs c, fun f hf h23 => ?_⟩
+  have h1 : intBit (f : Int) 1 = true := by
+    rw [intBit_natCast _ _ (by omega)]
+    rcases h23 with h | h <;> subst h <;> decide
+  rw [cipherSuiteOk_eq, hf]
+  simp only [okFlags, h1, if_true, keys, Bool.and_eq_true]
+
+/-- THE PROPERTY on the translated server: `pickCipherSuite` never panics (non-nil `hs.c`, `hs.c.config`,
+`hs.clientHello`) and EITHER stores in `hs.suite` the table entry `s` of the FIRST entry of the priority order that
+is configured on the server (`Config.cipherSuites()`), offered by the client, present in the table and admitted by
+`cipherSuiteOk`, sets `c.cipherSuite = s.id`, sends no alert and returns a nil error, OR — when no entry of the
+priority order qualifies — leaves `hs.suite` nil, appends handshake_failure (40) to `c.alerts` and returns a non-nil
+error.  Nothing else in the state changes. -/
+theorem C01_src_sel_pick_first_tlcp (tbl : BitVec 16 → Option cipherSuite) (nn : List (BitVec 16) → Bool)
+    (hs : serverHandshakeState) (c : Conn) (cfg : Config) (ch : clientHelloMsg)
+    (hc : hs.c = some c) (hcfg : c.config = some cfg) (hch : hs.clientHello = some ch) :
+    ∃ hs' e, serverHandshakeState.pickCipherSuite tbl nn hs = .ok (hs', e) ∧
+      ((∃ id s, FirstSuch prefOrder
+            (Good tbl (Config.cipherSuites nn cfg) ch.cipherSuites (serverHandshakeState.cipherSuiteOk hs)) id ∧
+          tbl id = some s ∧ e = none ∧
+          hs' = { hs with suite := some s, c := some { c with cipherSuite := s.id } }) ∨
+       ((∀ id, id ∈ prefOrder →
+            ¬ Good tbl (Config.cipherSuites nn cfg) ch.cipherSuites (serverHandshakeState.cipherSuiteOk hs) id) ∧
+          e = some Go.Error.other ∧
+          hs' = { hs with suite := none, c := some { c with alerts := c.alerts ++ [40#8] } })) := by
+  have hok : (fun s : cipherSuite => okFlags (keys hs) s.flags) = serverHandshakeState.cipherSuiteOk hs :=
+    funext fun s => (cipherSuiteOk_eq hs s).symm
+  rw [pick_eq tbl nn hs c cfg ch hc hcfg hch, hok]
+  cases hp : pickSpec tbl (Config.cipherSuites nn cfg) ch.cipherSuites (serverHandshakeState.cipherSuiteOk hs) with
+  | some s =>
+    obtain ⟨id, hfirst, hid⟩ := (pickSpec_eq_some _ _ _ _ _).mp hp
+    exact ⟨_, _, rfl, Or.inl ⟨id, s, hfirst, hid, rfl, rfl⟩⟩
+  | none =>
+    exact ⟨_, _, rfl, Or.inr ⟨(pickSpec_eq_none _ _ _ _).mp hp, rfl, rfl⟩⟩
+
+/-- … it FAILS (non-nil error) exactly when no entry of the priority order is configured, offered, in the table
+and admitted; and the first qualifying entry is unique, so the outcome is determined by these four sets alone. -/
+theorem C01_src_sel_pick_fails_iff_tlcp (tbl : BitVec 16 → Option cipherSuite) (nn : List (BitVec 16) → Bool)
+    (hs : serverHandshakeState) (c : Conn) (cfg : Config) (ch : clientHelloMsg)
+    (hc : hs.c = some c) (hcfg : c.config = some cfg) (hch : hs.clientHello = some ch)
+    (hs' : serverHandshakeState) (e : Option Go.Error)
+    (h : serverHandshakeState.pickCipherSuite tbl nn hs = .ok (hs', e)) :
+    (e ≠ none ↔ ∀ id, id ∈ prefOrder →
+      ¬ Good tbl (Config.cipherSuites nn cfg) ch.cipherSuites (serverHandshakeState.cipherSuiteOk hs) id) ∧
+    (e ≠ none ↔ hs'.suite = none) ∧
+    (∀ id, FirstSuch prefOrder
+        (Good tbl (Config.cipherSuites nn cfg) ch.cipherSuites (serverHandshakeState.cipherSuiteOk hs)) id →
+      e = none ∧ hs'.suite = tbl id ∧ (tbl id).isSome = true) := by
+  obtain ⟨hs2, e2, h2, hcase⟩ := C01_src_sel_pick_first_tlcp tbl nn hs c cfg ch hc hcfg hch
+  rw [h] at h2
+  simp only [Except.ok.injEq, Prod.mk.injEq] at h2
+  obtain ⟨rfl, rfl⟩ := h2
+  rcases hcase with ⟨id, s, hfirst, hid, he, hst⟩ | ⟨hnone, he, hst⟩
+  · subst he; subst hst
+    refine ⟨⟨fun h => absurd rfl h, fun hn => ?_⟩, ⟨fun h => absurd rfl h, fun h => by cases h⟩, fun id' hf' => ?_⟩
+    · obtain ⟨b, a, hb, hg, _⟩ := hfirst
+      exact absurd hg (hn id (by rw [hb]; simp))
+    · have := firstSuch_unique hf' hfirst
+      subst this
+      exact ⟨rfl, hid.symm, by rw [hid]; rfl⟩
+  · subst he; subst hst
+    refine ⟨⟨fun _ => hnone, fun _ h => by cases h⟩, ⟨fun _ => rfl, fun _ h => by cases h⟩, fun id' hf' => ?_⟩
+    obtain ⟨b, a, hb, hg, _⟩ := hf'
+    exact absurd hg (hnone id' (by rw [hb]; simp))
+
+/-- ORDER INDEPENDENCE: replace the server's configured list and the client's offer by lists with the same MEMBERS
+(any permutation, any repetition): the translated `pickCipherSuite` ends with the same `hs.suite` and the same
+error.  Only the documented priority order decides. -/
+theorem C01_src_sel_order_independent_tlcp (tbl : BitVec 16 → Option cipherSuite) (nn : List (BitVec 16) → Bool)
+    (hs : serverHandshakeState) (c : Conn) (cfg cfg' : Config) (ch ch' : clientHelloMsg)
+    (hc : hs.c = some c) (hcfg : c.config = some cfg) (hch : hs.clientHello = some ch)
+    (hcfg' : ∀ x, x ∈ Config.cipherSuites nn cfg ↔ x ∈ Config.cipherSuites nn cfg')
+    (hch' : ∀ x, x ∈ ch.cipherSuites ↔ x ∈ ch'.cipherSuites) :
+    (serverHandshakeState.pickCipherSuite tbl nn hs).map (fun r => (r.1.suite, r.2)) =
+    (serverHandshakeState.pickCipherSuite tbl nn
+      { hs with c := some { c with config := some cfg' }, clientHello := some ch' }).map (fun r => (r.1.suite, r.2)) := by
+  rw [pick_eq tbl nn hs c cfg ch hc hcfg hch,
+    pick_eq tbl nn { hs with c := some { c with config := some cfg' }, clientHello := some ch' }
+      { c with config := some cfg' } cfg' ch' rfl rfl rfl,
+    pickSpec_congr tbl _ _ _ _ _ hcfg' hch']
+  have hk : keys { hs with c := some { c with config := some cfg' }, clientHello := some ch' } = keys hs := rfl
+  rw [hk]
+  cases pickSpec tbl (Config.cipherSuites nn cfg') ch'.cipherSuites (fun s => okFlags (keys hs) s.flags) <;> rfl
+
+/-- Outside the non-nil hypotheses the Go code panics (nil pointer dereference) and the translation says so: the
+server's `pickCipherSuite` when `hs.c`, `hs.c.config` or `hs.clientHello` is nil, the client's when `hs.c`,
+`hs.hello` or `hs.serverHello` is nil. -/
+theorem C01_src_sel_nil_panics_tlcp (tbl : BitVec 16 → Option cipherSuite) (nn : List (BitVec 16) → Bool) :
+    (∀ hs : serverHandshakeState, ¬ (∃ c cfg ch, hs.c = some c ∧ c.config = some cfg ∧ hs.clientHello = some ch) →
+      serverHandshakeState.pickCipherSuite tbl nn hs = .error nilDeref) ∧
+    (∀ hs : clientHandshakeState, ¬ (∃ c h sh, hs.c = some c ∧ hs.hello = some h ∧ hs.serverHello = some sh) →
+      clientHandshakeState.pickCipherSuite tbl hs = .error nilDeref) :=
+  ⟨fun hs h => pick_nil tbl nn hs h, fun hs h => clientPick_nil tbl hs h⟩
+
+/-- The translated CLIENT accepts the suite of the ServerHello exactly when it is one the ClientHello offered and
+the table knows; then `hs.suite` is its table entry and `c.cipherSuite` that entry's id; otherwise handshake_failure
+(40) is recorded, the error is non-nil and `hs.suite` is nil.  Never a panic (non-nil `hs.c`, `hs.hello`,
+`hs.serverHello`). -/
+theorem C01_src_sel_client_accepts_iff_tlcp (tbl : BitVec 16 → Option cipherSuite) (hs : clientHandshakeState)
+    (c : Conn) (h : clientHelloMsg) (sh : serverHelloMsg)
+    (hc : hs.c = some c) (hh : hs.hello = some h) (hsh : hs.serverHello = some sh) :
+    ∃ hs' e, clientHandshakeState.pickCipherSuite tbl hs = .ok (hs', e) ∧
+      (e = none ↔ sh.cipherSuite ∈ h.cipherSuites ∧ (tbl sh.cipherSuite).isSome = true) ∧
+      (e = none → ∃ s, tbl sh.cipherSuite = some s ∧
+        hs' = { hs with suite := some s, c := some { c with cipherSuite := s.id } }) ∧
+      (e ≠ none → e = some Go.Error.other ∧
+        hs' = { hs with suite := none, c := some { c with alerts := c.alerts ++ [40#8] } }) := by
+  rw [clientPick_eq tbl hs c h sh hc hh hsh]
+  unfold mutualSpec
+  cases hm : h.cipherSuites.contains sh.cipherSuite with
+  | false =>
+    simp only [Bool.false_eq_true, if_false]
+    refine ⟨_, _, rfl, ?_, ?_, ?_⟩
+    · constructor
+      · intro h0; cases h0
+      · rintro ⟨h1, _⟩
+        have : h.cipherSuites.contains sh.cipherSuite = true := by simpa using h1
+        rw [hm] at this; cases this
+    · intro h0; cases h0
+    · intro _; exact ⟨rfl, rfl⟩
+  | true =>
+    have hmem : sh.cipherSuite ∈ h.cipherSuites := by simpa using hm
+    simp only [if_true]
+    cases ht : tbl sh.cipherSuite with
+    | none =>
+      refine ⟨_, _, rfl, ?_, ?_, ?_⟩
+      · constructor
+        · intro h0; cases h0
+        · rintro ⟨_, h2⟩; cases h2
+      · intro h0; cases h0
+      · intro _; exact ⟨rfl, rfl⟩
+    | some s =>
+      refine ⟨_, _, rfl, ?_, ?_, ?_⟩
+      · exact ⟨fun _ => ⟨hmem, rfl⟩, fun _ => rfl⟩
+      · intro _; exact ⟨s, rfl, rfl⟩
+      · intro h0; exact absurd rfl h0
+
+/-- AGREEMENT on the suite, translated server and translated client: for a table whose entries carry their own id
+(the shape of the `cipherSuites` map), when the server picks `s` from the ClientHello's offer and announces `s.id`
+in the ServerHello, the client — holding the ClientHello it sent — accepts, with the same table entry `s`, and both
+connections record `cipherSuite = s.id`. -/
+theorem C01_src_sel_agreement_tlcp (tbl : BitVec 16 → Option cipherSuite) (htbl : ∀ id s, tbl id = some s → s.id = id)
+    (nn : List (BitVec 16) → Bool) (hs : serverHandshakeState) (c : Conn) (cfg : Config) (ch : clientHelloMsg)
+    (hc : hs.c = some c) (hcfg : c.config = some cfg) (hch : hs.clientHello = some ch)
+    (hs' : serverHandshakeState) (s : cipherSuite)
+    (hpick : serverHandshakeState.pickCipherSuite tbl nn hs = .ok (hs', none)) (hsuite : hs'.suite = some s)
+    (chs : clientHandshakeState) (cc : Conn) (h : clientHelloMsg) (sh : serverHelloMsg)
+    (hcc : chs.c = some cc) (hh : chs.hello = some h) (hsh : chs.serverHello = some sh)
+    (hoffer : h.cipherSuites = ch.cipherSuites) (hannounce : sh.cipherSuite = s.id) :
+    clientHandshakeState.pickCipherSuite tbl chs =
+      .ok ({ chs with suite := some s, c := some { cc with cipherSuite := s.id } }, none) ∧
+    hs'.c = some { c with cipherSuite := s.id } := by
+  obtain ⟨hs2, e2, h2, hcase⟩ := C01_src_sel_pick_first_tlcp tbl nn hs c cfg ch hc hcfg hch
+  rw [hpick] at h2
+  simp only [Except.ok.injEq, Prod.mk.injEq] at h2
+  obtain ⟨rfl, rfl⟩ := h2
+  rcases hcase with ⟨id, s', hfirst, hid, _, hst⟩ | ⟨_, he, _⟩
+  · subst hst
+    simp only [Option.some.injEq] at hsuite
+    subst hsuite
+    obtain ⟨_, _, _, ⟨_, hoff, _⟩, _⟩ := hfirst
+    have hsid : s'.id = id := htbl id s' hid
+    refine ⟨?_, rfl⟩
+    rw [clientPick_eq tbl chs cc h sh hcc hh hsh]
+    unfold mutualSpec
+    have : h.cipherSuites.contains id = true := by
+      rw [hoffer]; simpa using hoff
+    simp only [hannounce, hsid, hid, this, if_true]
+  · cases he
+
+/-- The translated functions ARE the model the theorems of Props/C01.lean are about (the model of either stack,
+`st'`), for every table `tbl` the model's suite table describes (`TblAbs`; `tblOf_tlcp` is one): `Config.cipherSuites`
+is `configSuites`, `cipherSuiteOk` is `cipherSuiteOk` on every flags value (all branches), `mutualCipherSuite` is
+non-nil when `mutualCipherSuite` is, `selectCipherSuite` returns the table entry of the id `selectCipherSuite`
+returns, `pickCipherSuite` is `serverPick` (success: suite stored, id recorded, no alert; failure: alert 40, error),
+and the decision of `checkForResumption` on a found session is `serverResumes`. -/
+theorem C01_src_sel_is_model_tlcp (st' : Stack) (tbl : BitVec 16 → Option cipherSuite)
+    (hT : TblAbs cipherSuite.flags (factsP st') tbl) :
+    (∀ (nn : List (BitVec 16) → Bool) (cfg : Config),
+      (Config.cipherSuites nn cfg).map (·.toNat) = configSuites (factsP st') (absSuites nn cfg.CipherSuites)) ∧
+    (∀ (hs : serverHandshakeState) (c : cipherSuite) (f : Nat), c.flags = (f : Int) →
+      serverHandshakeState.cipherSuiteOk hs c = cipherSuiteOk (factsP st') (keys hs) f) ∧
+    (∀ (have_ : List (BitVec 16)) (want : BitVec 16),
+      (Src.tlcp.sel.mutualCipherSuite tbl have_ want).isSome =
+        mutualCipherSuite (factsP st') (have_.map (·.toNat)) want.toNat) ∧
+    (∀ (ok : cipherSuite → Bool) (okM : Nat → Bool), (∀ s (f : Nat), s.flags = (f : Int) → ok s = okM f) →
+      ∀ ids supported : List (BitVec 16),
+        Src.tlcp.sel.selectCipherSuite tbl ids supported ok = .ok ((selectId tbl ids supported ok).bind tbl) ∧
+        (selectId tbl ids supported ok).map (·.toNat) =
+          selectCipherSuite (factsP st') (ids.map (·.toNat)) (supported.map (·.toNat)) okM) ∧
+    (∀ (nn : List (BitVec 16) → Bool) (hs : serverHandshakeState) (c : Conn) (cfg : Config) (ch : clientHelloMsg),
+      hs.c = some c → c.config = some cfg → hs.clientHello = some ch →
+      ∀ s : Gotlcp.Negotiate.ServerCfg, s.suites = absSuites nn cfg.CipherSuites →
+        match serverPick (factsP st') (keys hs) s (ch.cipherSuites.map (·.toNat)) with
+        | some n => ∃ id su, id.toNat = n ∧ tbl id = some su ∧
+            serverHandshakeState.pickCipherSuite tbl nn hs = .ok (pickOk hs c su, none)
+        | none => serverHandshakeState.pickCipherSuite tbl nn hs = .ok (pickFail hs c, some Go.Error.other)) ∧
+    (∀ (nn : List (BitVec 16) → Bool) (hs : serverHandshakeState) (c : Conn) (cfg : Config) (ch : clientHelloMsg)
+      (sst : SessionState) (s : Gotlcp.Negotiate.ServerCfg) (sess : Session),
+      s.suites = absSuites nn cfg.CipherSuites → cfg.ClientAuth = ((authVal (factsP st') s.auth : Nat) : Int) →
+      sess.vers = sst.vers.toNat → sess.suite = sst.cipherSuite.toNat →
+      sess.serverPeer.length = sst.peerCertificates.length →
+        Gotlcp.Tie.ResumeDecision.tlcp.decision tbl nn hs c cfg ch sst =
+          serverResumes (factsP st') (keys hs) s c.vers.toNat (ch.cipherSuites.map (·.toNat)) sess) := by
+  obtain ⟨hp, hr⟩ := C01_src_sel_translated.2 st'
+  exact ⟨fun nn cfg => tie_cfgSuites _ hp nn cfg, fun hs c f hf => tie_cipherSuiteOk _ hp hs c f hf,
+    fun hv w => tie_mutualCipherSuite _ tbl hT hv w,
+    fun ok okM hok ids sup => tie_selectCipherSuite _ tbl hT ok okM hok ids sup,
+    fun nn hs c cfg ch hc hcfg hch s hs' => tie_pickCipherSuite _ hp tbl hT nn hs c cfg ch hc hcfg hch s hs',
+    fun nn hs c cfg ch sst s sess h1 h2 h3 h4 h5 =>
+      Gotlcp.Tie.ResumeDecision.tlcp.tie_resumeDecision _ hp hr tbl hT nn hs c cfg ch sst s h1 h2 sess h3 h4 h5⟩
+
+end tlcp
+
+/-! ### DTLCP (the same statements about `Gotlcp.Src.dtlcp.sel`) -/
+
+section dtlcp
+open Gotlcp.Src.dtlcp.sel Gotlcp.Tie.Select.dtlcp
+
+/-- the model's table `p.known` as a table parameter: the entry of an id carries that id and the model's flags -/
+def tblOf_dtlcp (p : Params) : BitVec 16 → Option cipherSuite :=
+  fun id => (flagsOf p id.toNat).map fun f => { id := id, flags := (f : Int) }
+
+/-- … it is a table the model's table describes (so `C01_src_sel_is_model_dtlcp` is not vacuous), and its entries
+carry their own id -/
+theorem C01_src_sel_table_exists_dtlcp (p : Params) :
+    TblAbs cipherSuite.flags p (tblOf_dtlcp p) ∧ ∀ id s, tblOf_dtlcp p id = some s → s.id = id := by
+  constructor
+  · intro id
+    unfold tblOf_dtlcp
+    cases flagsOf p id.toNat <;> rfl
+  · intro id s h
+    unfold tblOf_dtlcp at h
+    cases hf : flagsOf p id.toNat with
+    | none => rw [hf] at h; cases h
+    | some f => rw [hf] at h; cases h; rfl
+
+/-- `selectCipherSuite(ids, supported, ok)` never panics and returns the table entry of the FIRST id in `ids` whose
+table entry exists, satisfies `ok`, and which occurs in `supported` (`List.find?` form); `mutualCipherSuite(have,
+want)` is the table entry of `want` when `have` contains it, else nil; `Config.cipherSuites()` is the configured
+list when non-nil, else the default list. -/
+theorem C01_src_sel_select_dtlcp (tbl : BitVec 16 → Option cipherSuite) (ids supported have_ : List (BitVec 16))
+    (want : BitVec 16) (ok : cipherSuite → Bool) (nn : List (BitVec 16) → Bool) (cfg : Config) :
+    selectCipherSuite tbl ids supported ok =
+      .ok ((ids.find? fun id => match tbl id with
+                                 | none => false
+                                 | some s => ok s && supported.contains id).bind tbl) ∧
+    mutualCipherSuite tbl have_ want = (if have_.contains want = true then tbl want else none) ∧
+    Config.cipherSuites nn cfg = (if nn cfg.CipherSuites = true then cfg.CipherSuites else defaultCipherSuites) := by
+  refine ⟨?_, mutual_eq tbl have_ want, ?_⟩
+  · rw [select_eq]
+    unfold selectSpec selectId
+    congr 3
+    funext id
+    unfold admits
+    cases tbl id <;> rfl
+  · rw [cfgSuites_eq, tables_eq.2.2.1]; rfl
+
+/-- `cipherSuiteOk` reads the five key flags and bits 1 (`suiteECSign`) and 0 (`suiteECDHE`) of the suite's flags:
+with bit 1 it demands an SM2 signing key AND an SM2 decryption key — dropping either check would admit a suite the
+server has no keys for —; without bit 1 but with bit 0, ECDHE support and an RSA signing key; with neither, an RSA
+decryption key.  All four suites of the preference order carry bit 1. -/
+theorem C01_src_sel_cipherSuiteOk_dtlcp (hs : serverHandshakeState) (c : cipherSuite) :
+    serverHandshakeState.cipherSuiteOk hs c =
+      (if intBit c.flags 1 = true then hs.ecSignOk && hs.ecDecryptOk
+       else if intBit c.flags 0 = true then hs.ecdheOk && hs.rsaSignOk
+       else hs.rsaDecryptOk) ∧
+    (∀ f : Nat, c.flags = (f : Int) → f = 2 ∨ f = 3 →
+      (serverHandshakeState.cipherSuiteOk hs c = true ↔ hs.ecSignOk = true ∧ hs.ecDecryptOk = true)) := by
+  refine ⟨cipherSuiteOk_eq hs c, fun f hf h23 => ?_⟩
+  have h1 : intBit (f : Int) 1 = true := by
+    rw [intBit_natCast _ _ (by omega)]
+    rcases h23 with h | h <;> subst h <;> decide
+  rw [cipherSuiteOk_eq, hf]
+  simp only [okFlags, h1, if_true, keys, Bool.and_eq_true]
+
+/-- THE PROPERTY on the translated server: `pickCipherSuite` never panics (non-nil `hs.c`, `hs.c.config`,
+`hs.clientHello`) and EITHER stores in `hs.suite` the table entry `s` of the FIRST entry of the priority order that
+is configured on the server (`Config.cipherSuites()`), offered by the client, present in the table and admitted by
+`cipherSuiteOk`, sets `c.cipherSuite = s.id`, sends no alert and returns a nil error, OR — when no entry of the
+priority order qualifies — leaves `hs.suite` nil, appends handshake_failure (40) to `c.alerts` and returns a non-nil
+error.  Nothing else in the state changes. -/
+theorem C01_src_sel_pick_first_dtlcp (tbl : BitVec 16 → Option cipherSuite) (nn : List (BitVec 16) → Bool)
+    (hs : serverHandshakeState) (c : Conn) (cfg : Config) (ch : clientHelloMsg)
+    (hc : hs.c = some c) (hcfg : c.config = some cfg) (hch : hs.clientHello = some ch) :
+    ∃ hs' e, serverHandshakeState.pickCipherSuite tbl nn hs = .ok (hs', e) ∧
+      ((∃ id s, FirstSuch prefOrder
+            (Good tbl (Config.cipherSuites nn cfg) ch.cipherSuites (serverHandshakeState.cipherSuiteOk hs)) id ∧
+          tbl id = some s ∧ e = none ∧
+          hs' = { hs with suite := some s, c := some { c with cipherSuite := s.id } }) ∨
+       ((∀ id, id ∈ prefOrder →
+            ¬ Good tbl (Config.cipherSuites nn cfg) ch.cipherSuites (serverHandshakeState.cipherSuiteOk hs) id) ∧
+          e = some Go.Error.other ∧
+          hs' = { hs with suite := none, c := some { c with alerts := c.alerts ++ [40#8] } })) := by
+  have hok : (fun s : cipherSuite => okFlags (keys hs) s.flags) = serverHandshakeState.cipherSuiteOk hs :=
+    funext fun s => (cipherSuiteOk_eq hs s).symm
+  rw [pick_eq tbl nn hs c cfg ch hc hcfg hch, hok]
+  cases hp : pickSpec tbl (Config.cipherSuites nn cfg) ch.cipherSuites (serverHandshakeState.cipherSuiteOk hs) with
+  | some s =>
+    obtain ⟨id, hfirst, hid⟩ := (pickSpec_eq_some _ _ _ _ _).mp hp
+    exact ⟨_, _, rfl, Or.inl ⟨id, s, hfirst, hid, rfl, rfl⟩⟩
+  | none =>
+    exact ⟨_, _, rfl, Or.inr ⟨(pickSpec_eq_none _ _ _ _).mp hp, rfl, rfl⟩⟩
+
+/-- … it FAILS (non-nil error) exactly when no entry of the priority order is configured, offered, in the table
+and admitted; and the first qualifying entry is unique, so the outcome is determined by these four sets alone. -/
+theorem C01_src_sel_pick_fails_iff_dtlcp (tbl : BitVec 16 → Option cipherSuite) (nn : List (BitVec 16) → Bool)
+    (hs : serverHandshakeState) (c : Conn) (cfg : Config) (ch : clientHelloMsg)
+    (hc : hs.c = some c) (hcfg : c.config = some cfg) (hch : hs.clientHello = some ch)
+    (hs' : serverHandshakeState) (e : Option Go.Error)
+    (h : serverHandshakeState.pickCipherSuite tbl nn hs = .ok (hs', e)) :
+    (e ≠ none ↔ ∀ id, id ∈ prefOrder →
+      ¬ Good tbl (Config.cipherSuites nn cfg) ch.cipherSuites (serverHandshakeState.cipherSuiteOk hs) id) ∧
+    (e ≠ none ↔ hs'.suite = none) ∧
+    (∀ id, FirstSuch prefOrder
+        (Good tbl (Config.cipherSuites nn cfg) ch.cipherSuites (serverHandshakeState.cipherSuiteOk hs)) id →
+      e = none ∧ hs'.suite = tbl id ∧ (tbl id).isSome = true) := by
+  obtain ⟨hs2, e2, h2, hcase⟩ := C01_src_sel_pick_first_dtlcp tbl nn hs c cfg ch hc hcfg hch
+  rw [h] at h2
+  simp only [Except.ok.injEq, Prod.mk.injEq] at h2
+  obtain ⟨rfl, rfl⟩ := h2
+  rcases hcase with ⟨id, s, hfirst, hid, he, hst⟩ | ⟨hnone, he, hst⟩
+  · subst he; subst hst
+    refine ⟨⟨fun h => absurd rfl h, fun hn => ?_⟩, ⟨fun h => absurd rfl h, fun h => by cases h⟩, fun id' hf' => ?_⟩
+    · obtain ⟨b, a, hb, hg, _⟩ := hfirst
+      exact absurd hg (hn id (by rw [hb]; simp))
+    · have := firstSuch_unique hf' hfirst
+      subst this
+      exact ⟨rfl, hid.symm, by rw [hid]; rfl⟩
+  · subst he; subst hst
+    refine ⟨⟨fun _ => hnone, fun _ h => by cases h⟩, ⟨fun _ => rfl, fun _ h => by cases h⟩, fun id' hf' => ?_⟩
+    obtain ⟨b, a, hb, hg, _⟩ := hf'
+    exact absurd hg (hnone id' (by rw [hb]; simp))
+
+/-- ORDER INDEPENDENCE: replace the server's configured list and the client's offer by lists with the same MEMBERS
+(any permutation, any repetition): the translated `pickCipherSuite` ends with the same `hs.suite` and the same
+error.  Only the documented priority order decides. -/
+theorem C01_src_sel_order_independent_dtlcp (tbl : BitVec 16 → Option cipherSuite) (nn : List (BitVec 16) → Bool)
+    (hs : serverHandshakeState) (c : Conn) (cfg cfg' : Config) (ch ch' : clientHelloMsg)
+    (hc : hs.c = some c) (hcfg : c.config = some cfg) (hch : hs.clientHello = some ch)
+    (hcfg' : ∀ x, x ∈ Config.cipherSuites nn cfg ↔ x ∈ Config.cipherSuites nn cfg')
+    (hch' : ∀ x, x ∈ ch.cipherSuites ↔ x ∈ ch'.cipherSuites) :
+    (serverHandshakeState.pickCipherSuite tbl nn hs).map (fun r => (r.1.suite, r.2)) =
+    (serverHandshakeState.pickCipherSuite tbl nn
+      { hs with c := some { c with config := some cfg' }, clientHello := some ch' }).map (fun r => (r.1.suite, r.2)) := by
+  rw [pick_eq tbl nn hs c cfg ch hc hcfg hch,
+    pick_eq tbl nn { hs with c := some { c with config := some cfg' }, clientHello := some ch' }
+      { c with config := some cfg' } cfg' ch' rfl rfl rfl,
+    pickSpec_congr tbl _ _ _ _ _ hcfg' hch']
+  have hk : keys { hs with c := some { c with config := some cfg' }, clientHello := some ch' } = keys hs := rfl
+  rw [hk]
+  cases pickSpec tbl (Config.cipherSuites nn cfg') ch'.cipherSuites (fun s => okFlags (keys hs) s.flags) <;> rfl
+
+/-- Outside the non-nil hypotheses the Go code panics (nil pointer dereference) and the translation says so: the
+server's `pickCipherSuite` when `hs.c`, `hs.c.config` or `hs.clientHello` is nil, the client's when `hs.c`,
+`hs.hello` or `hs.serverHello` is nil. -/
+theorem C01_src_sel_nil_panics_dtlcp (tbl : BitVec 16 → Option cipherSuite) (nn : List (BitVec 16) → Bool) :
+    (∀ hs : serverHandshakeState, ¬ (∃ c cfg ch, hs.c = some c ∧ c.config = some cfg ∧ hs.clientHello = some ch) →
+      serverHandshakeState.pickCipherSuite tbl nn hs = .error nilDeref) ∧
+    (∀ hs : clientHandshakeState, ¬ (∃ c h sh, hs.c = some c ∧ hs.hello = some h ∧ hs.serverHello = some sh) →
+      clientHandshakeState.pickCipherSuite tbl hs = .error nilDeref) :=
+  ⟨fun hs h => pick_nil tbl nn hs h, fun hs h => clientPick_nil tbl hs h⟩
+
+/-- The translated CLIENT accepts the suite of the ServerHello exactly when it is one the ClientHello offered and
+the table knows; then `hs.suite` is its table entry and `c.cipherSuite` that entry's id; otherwise handshake_failure
+(40) is recorded, the error is non-nil and `hs.suite` is nil.  Never a panic (non-nil `hs.c`, `hs.hello`,
+`hs.serverHello`). -/
+theorem C01_src_sel_client_accepts_iff_dtlcp (tbl : BitVec 16 → Option cipherSuite) (hs : clientHandshakeState)
+    (c : Conn) (h : clientHelloMsg) (sh : serverHelloMsg)
+    (hc : hs.c = some c) (hh : hs.hello = some h) (hsh : hs.serverHello = some sh) :
+    ∃ hs' e, clientHandshakeState.pickCipherSuite tbl hs = .ok (hs', e) ∧
+      (e = none ↔ sh.cipherSuite ∈ h.cipherSuites ∧ (tbl sh.cipherSuite).isSome = true) ∧
+      (e = none → ∃ s, tbl sh.cipherSuite = some s ∧
+        hs' = { hs with suite := some s, c := some { c with cipherSuite := s.id } }) ∧
+      (e ≠ none → e = some Go.Error.other ∧
+        hs' = { hs with suite := none, c := some { c with alerts := c.alerts ++ [40#8] } }) := by
+  rw [clientPick_eq tbl hs c h sh hc hh hsh]
+  unfold mutualSpec
+  cases hm : h.cipherSuites.contains sh.cipherSuite with
+  | false =>
+    simp only [Bool.false_eq_true, if_false]
+    refine ⟨_, _, rfl, ?_, ?_, ?_⟩
+    · constructor
+      · intro h0; cases h0
+      · rintro ⟨h1, _⟩
+        have : h.cipherSuites.contains sh.cipherSuite = true := by simpa using h1
+        rw [hm] at this; cases this
+    · intro h0; cases h0
+    · intro _; exact ⟨rfl, rfl⟩
+  | true =>
+    have hmem : sh.cipherSuite ∈ h.cipherSuites := by simpa using hm
+    simp only [if_true]
+    cases ht : tbl sh.cipherSuite with
+    | none =>
+      refine ⟨_, _, rfl, ?_, ?_, ?_⟩
+      · constructor
+        · intro h0; cases h0
+        · rintro ⟨_, h2⟩; cases h2
+      · intro h0; cases h0
+      · intro _; exact ⟨rfl, rfl⟩
+    | some s =>
+      refine ⟨_, _, rfl, ?_, ?_, ?_⟩
+      · exact ⟨fun _ => ⟨hmem, rfl⟩, fun _ => rfl⟩
+      · intro _; exact ⟨s, rfl, rfl⟩
+      · intro h0; exact absurd rfl h0
+
+/-- AGREEMENT on the suite, translated server and translated client: for a table whose entries carry their own id
+(the shape of the `cipherSuites` map), when the server picks `s` from the ClientHello's offer and announces `s.id`
+in the ServerHello, the client — holding the ClientHello it sent — accepts, with the same table entry `s`, and both
+connections record `cipherSuite = s.id`. -/
+theorem C01_src_sel_agreement_dtlcp (tbl : BitVec 16 → Option cipherSuite) (htbl : ∀ id s, tbl id = some s → s.id = id)
+    (nn : List (BitVec 16) → Bool) (hs : serverHandshakeState) (c : Conn) (cfg : Config) (ch : clientHelloMsg)
+    (hc : hs.c = some c) (hcfg : c.config = some cfg) (hch : hs.clientHello = some ch)
+    (hs' : serverHandshakeState) (s : cipherSuite)
+    (hpick : serverHandshakeState.pickCipherSuite tbl nn hs = .ok (hs', none)) (hsuite : hs'.suite = some s)
+    (chs : clientHandshakeState) (cc : Conn) (h : clientHelloMsg) (sh : serverHelloMsg)
+    (hcc : chs.c = some cc) (hh : chs.hello = some h) (hsh : chs.serverHello = some sh)
+    (hoffer : h.cipherSuites = ch.cipherSuites) (hannounce : sh.cipherSuite = s.id) :
+    clientHandshakeState.pickCipherSuite tbl chs =
+      .ok ({ chs with suite := some s, c := some { cc with cipherSuite := s.id } }, none) ∧
+    hs'.c = some { c with cipherSuite := s.id } := by
+  obtain ⟨hs2, e2, h2, hcase⟩ := C01_src_sel_pick_first_dtlcp tbl nn hs c cfg ch hc hcfg hch
+  rw [hpick] at h2
+  simp only [Except.ok.injEq, Prod.mk.injEq] at h2
+  obtain ⟨rfl, rfl⟩ := h2
+  rcases hcase with ⟨id, s', hfirst, hid, _, hst⟩ | ⟨_, he, _⟩
+  · subst hst
+    simp only [Option.some.injEq] at hsuite
+    subst hsuite
+    obtain ⟨_, _, _, ⟨_, hoff, _⟩, _⟩ := hfirst
+    have hsid : s'.id = id := htbl id s' hid
+    refine ⟨?_, rfl⟩
+    rw [clientPick_eq tbl chs cc h sh hcc hh hsh]
+    unfold mutualSpec
+    have : h.cipherSuites.contains id = true := by
+      rw [hoffer]; simpa using hoff
+    simp only [hannounce, hsid, hid, this, if_true]
+  · cases he
+
+/-- The translated functions ARE the model the theorems of Props/C01.lean are about (the model of either stack,
+`st'`), for every table `tbl` the model's suite table describes (`TblAbs`; `tblOf_dtlcp` is one): `Config.cipherSuites`
+is `configSuites`, `cipherSuiteOk` is `cipherSuiteOk` on every flags value (all branches), `mutualCipherSuite` is
+non-nil when `mutualCipherSuite` is, `selectCipherSuite` returns the table entry of the id `selectCipherSuite`
+returns, `pickCipherSuite` is `serverPick` (success: suite stored, id recorded, no alert; failure: alert 40, error),
+and the decision of `checkForResumption` on a found session is `serverResumes`. -/
+theorem C01_src_sel_is_model_dtlcp (st' : Stack) (tbl : BitVec 16 → Option cipherSuite)
+    (hT : TblAbs cipherSuite.flags (factsP st') tbl) :
+    (∀ (nn : List (BitVec 16) → Bool) (cfg : Config),
+      (Config.cipherSuites nn cfg).map (·.toNat) = configSuites (factsP st') (absSuites nn cfg.CipherSuites)) ∧
+    (∀ (hs : serverHandshakeState) (c : cipherSuite) (f : Nat), c.flags = (f : Int) →
+      serverHandshakeState.cipherSuiteOk hs c = cipherSuiteOk (factsP st') (keys hs) f) ∧
+    (∀ (have_ : List (BitVec 16)) (want : BitVec 16),
+      (Src.dtlcp.sel.mutualCipherSuite tbl have_ want).isSome =
+        mutualCipherSuite (factsP st') (have_.map (·.toNat)) want.toNat) ∧
+    (∀ (ok : cipherSuite → Bool) (okM : Nat → Bool), (∀ s (f : Nat), s.flags = (f : Int) → ok s = okM f) →
+      ∀ ids supported : List (BitVec 16),
+        Src.dtlcp.sel.selectCipherSuite tbl ids supported ok = .ok ((selectId tbl ids supported ok).bind tbl) ∧
+        (selectId tbl ids supported ok).map (·.toNat) =
+          selectCipherSuite (factsP st') (ids.map (·.toNat)) (supported.map (·.toNat)) okM) ∧
+    (∀ (nn : List (BitVec 16) → Bool) (hs : serverHandshakeState) (c : Conn) (cfg : Config) (ch : clientHelloMsg),
+      hs.c = some c → c.config = some cfg → hs.clientHello = some ch →
+      ∀ s : Gotlcp.Negotiate.ServerCfg, s.suites = absSuites nn cfg.CipherSuites →
+        match serverPick (factsP st') (keys hs) s (ch.cipherSuites.map (·.toNat)) with
+        | some n => ∃ id su, id.toNat = n ∧ tbl id = some su ∧
+            serverHandshakeState.pickCipherSuite tbl nn hs = .ok (pickOk hs c su, none)
+        | none => serverHandshakeState.pickCipherSuite tbl nn hs = .ok (pickFail hs c, some Go.Error.other)) ∧
+    (∀ (nn : List (BitVec 16) → Bool) (hs : serverHandshakeState) (c : Conn) (cfg : Config) (ch : clientHelloMsg)
+      (sst : SessionState) (s : Gotlcp.Negotiate.ServerCfg) (sess : Session),
+      s.suites = absSuites nn cfg.CipherSuites → cfg.ClientAuth = ((authVal (factsP st') s.auth : Nat) : Int) →
+      sess.vers = sst.vers.toNat → sess.suite = sst.cipherSuite.toNat →
+      sess.serverPeer.length = sst.peerCertificates.length →
+        Gotlcp.Tie.ResumeDecision.dtlcp.decision tbl nn hs c cfg ch sst =
+          serverResumes (factsP st') (keys hs) s c.vers.toNat (ch.cipherSuites.map (·.toNat)) sess) := by
+  obtain ⟨hp, hr⟩ := C01_src_sel_translated.2 st'
+  exact ⟨fun nn cfg => tie_cfgSuites _ hp nn cfg, fun hs c f hf => tie_cipherSuiteOk _ hp hs c f hf,
+    fun hv w => tie_mutualCipherSuite _ tbl hT hv w,
+    fun ok okM hok ids sup => tie_selectCipherSuite _ tbl hT ok okM hok ids sup,
+    fun nn hs c cfg ch hc hcfg hch s hs' => tie_pickCipherSuite _ hp tbl hT nn hs c cfg ch hc hcfg hch s hs',
+    fun nn hs c cfg ch sst s sess h1 h2 h3 h4 h5 =>
+      Gotlcp.Tie.ResumeDecision.dtlcp.tie_resumeDecision _ hp hr tbl hT nn hs c cfg ch sst s h1 h2 sess h3 h4 h5⟩
+
+end dtlcp
+
+/-! ### non-vacuity: the translated code evaluated by the kernel -/
+
+section examples
+open Gotlcp.Src.tlcp.sel
+
+/-- the table of this tree (ids with their flags), as a table parameter -/
+def tblEx : BitVec 16 → Option cipherSuite := tblOf_tlcp (factsP .tlcp)
+
+def nnEx : List (BitVec 16) → Bool := fun l => !l.isEmpty
+
+def srvEx (cfgS offer : List (BitVec 16)) (sign dec : Bool) : serverHandshakeState :=
+  { c := some { config := some { CipherSuites := cfgS }, vers := 0x0101#16 },
+    clientHello := some { cipherSuites := offer }, ecSignOk := sign, ecDecryptOk := dec }
+
+/-- what the examples look at: no panic, the id of `hs.suite`, the error, `c.cipherSuite`, `c.alerts` -/
+structure PickOut where
+  ok : Bool
+  suite : Option (BitVec 16)
+  err : Option Go.Error
+  cs : Option (BitVec 16)
+  alerts : Option (List (BitVec 8))
+deriving DecidableEq, Repr
+
+def outEx (r : Except String (serverHandshakeState × Option Go.Error)) : PickOut :=
+  match r with
+  | .ok x => ⟨true, x.1.suite.map (·.id), x.2, x.1.c.map (·.cipherSuite), x.1.c.map (·.alerts)⟩
+  | .error _ => ⟨false, none, none, none, none⟩
+
+def outExC (r : Except String (clientHandshakeState × Option Go.Error)) : PickOut :=
+  match r with
+  | .ok x => ⟨true, x.1.suite.map (·.id), x.2, x.1.c.map (·.cipherSuite), x.1.c.map (·.alerts)⟩
+  | .error _ => ⟨false, none, none, none, none⟩
+
+/-- the server's priority, not the order of its configured list nor of the offer: configured [CBC, GCM], offered
+[CBC, GCM, ECDHE-CBC] → ECC-GCM; the offer reversed, the configured list reversed → still ECC-GCM; default list
+(nil) with an offer of the two ECDHE suites → ECDHE-GCM; no common suite → alert 40 and an error; a common suite
+but no decryption key → alert 40 and an error -/
+example :
+    outEx (serverHandshakeState.pickCipherSuite tblEx nnEx (srvEx [0xe013#16, 0xe053#16] [0xe013#16, 0xe053#16, 0xe011#16] true true)) =
+      ⟨true, some 0xe053#16, none, some 0xe053#16, some []⟩ ∧
+    outEx (serverHandshakeState.pickCipherSuite tblEx nnEx (srvEx [0xe053#16, 0xe013#16] [0xe011#16, 0xe053#16, 0xe013#16] true true)) =
+      ⟨true, some 0xe053#16, none, some 0xe053#16, some []⟩ ∧
+    outEx (serverHandshakeState.pickCipherSuite tblEx nnEx (srvEx [] [0xe011#16, 0xe051#16, 0x7777#16] true true)) =
+      ⟨true, some 0xe051#16, none, some 0xe051#16, some []⟩ ∧
+    outEx (serverHandshakeState.pickCipherSuite tblEx nnEx (srvEx [0xe013#16] [0xe053#16] true true)) =
+      ⟨true, none, some Go.Error.other, some 0#16, some [40#8]⟩ ∧
+    outEx (serverHandshakeState.pickCipherSuite tblEx nnEx (srvEx [0xe013#16] [0xe013#16] true false)) =
+      ⟨true, none, some Go.Error.other, some 0#16, some [40#8]⟩ := by decide
+
+/-- a nil pointer is a panic; the client accepts what it offered and refuses what it did not (alert 40) -/
+example :
+    outEx (serverHandshakeState.pickCipherSuite tblEx nnEx { srvEx [] [] true true with clientHello := none }) =
+      ⟨false, none, none, none, none⟩ ∧
+    outExC (clientHandshakeState.pickCipherSuite tblEx
+        { c := some {}, hello := some { cipherSuites := [0xe013#16] }, serverHello := some { cipherSuite := 0xe013#16 } }) =
+      ⟨true, some 0xe013#16, none, some 0xe013#16, some []⟩ ∧
+    outExC (clientHandshakeState.pickCipherSuite tblEx
+        { c := some {}, hello := some { cipherSuites := [0xe013#16] }, serverHello := some { cipherSuite := 0xe053#16 } }) =
+      ⟨true, none, some Go.Error.other, some 0#16, some [40#8]⟩ := by
+  decide
+
+/-- `FirstSuch` and `Good` are satisfiable: in the first example above ECC-GCM is the first good entry -/
+example : FirstSuch prefOrder (Good tblEx [0xe013#16, 0xe053#16] [0xe013#16, 0xe053#16, 0xe011#16]
+    (serverHandshakeState.cipherSuiteOk (srvEx [] [] true true))) 0xe053#16 :=
+  ⟨[], [0xe013#16, 0xe051#16, 0xe011#16], rfl, ⟨by decide, by decide, ⟨{ id := 0xe053#16, flags := 2 }, by decide, by decide⟩⟩,
+    fun y hy => by cases hy⟩
+
+end examples
 
 end Gotlcp.Props.C01
